@@ -29,7 +29,7 @@ def meta(tier):
         'level': 'exploration',
         'rule': (f'(a) every nesting chain of the 26 construct variants to depth {d} ({gen_prog.shape_count(d)} chains), each parsed at global '
                  'scope, inside one function, and as a three-function script sharing the label counter; (b) all sibling pairs of depth<=2 '
-                 'chains in one scope and function-after-construct placements; (c) random deeper generated programs. Every parse goes '
+                 'chains in one scope, function-after-construct and function-inside-open-block placements, near-valid texts whose loop control crosses a function boundary; (c) random deeper generated programs; (d) depth<=2 shapes and their empty-body variants are executed and watched for "Unknown jump label". Every parse goes '
                  'through the parse_script contract: schema-valid, each generated jump targets a label defined exactly once in its scope, '
                  'each generated label is targeted, lint emits no label warning. Non-trivial: nesting depth >= 2 or >= 2 sibling '
                  'constructs; distinct = distinct program text.'),
